@@ -5,5 +5,6 @@ CONSTANTS
   MaxSteps = 6
   RestoreOnDrop = TRUE
   IsolateSiblings = TRUE
+  Faults = FALSE
 INVARIANT FakedOnlyWhileAlive LastFakeWins Emit
 CHECK_DEADLOCK FALSE
